@@ -1,5 +1,6 @@
 import Rare.Base.Proto
 import Rare.Model.C15
+import Rare.Model.C15Trunc
 import Rare.Model.C15Tail
 import Rare.Model.C15Trace
 /-!
@@ -35,6 +36,12 @@ def nCreate (s : NSt UInt8) : NSt UInt8 :=
   match s.fs.path with
   | some _ => s
   | none => { s with fs := s.fs.create, evq := s.evq ++ [.create] }
+
+/-- `t<n>`: `truncate(path, n)` – the writer step of `NStepT` (a Write event); no-op unless the file is longer -/
+def nTrunc (s : NSt UInt8) (n : Nat) : NSt UInt8 :=
+  match s.fs.path with
+  | some i => if n < (s.fs.content i).length then { s with fs := s.fs.truncate i n, evq := s.evq ++ [.write] } else s
+  | none => s
 
 /-- one step of the kernel goroutine, if it has one -/
 def nKernel (cfg : NCfg) (s : NSt UInt8) : Option (NSt UInt8) :=
@@ -91,6 +98,12 @@ def pCreate (s : PSt UInt8) : PSt UInt8 :=
   | some _ => s
   | none => { s with fs := s.fs.create }
 
+/-- `t<n>`: the writer step of `PStepT` -/
+def pTrunc (s : PSt UInt8) (n : Nat) : PSt UInt8 :=
+  match s.fs.path with
+  | some i => if n < (s.fs.content i).length then { s with fs := s.fs.truncate i n } else s
+  | none => s
+
 /-- One call cycle of the polling reader starting at `attempt 0`: `some s'` if something happened
     (bytes delivered / file re-opened / EOF), `none` after a quiet cycle (the `ReadAttempts` empty
     reads and the `Stat` changed nothing but the attempt counter). -/
@@ -143,11 +156,14 @@ def pSettle (cfg : PCfg) : Nat → PSt UInt8 → PSt UInt8
 inductive Op
   | append (b : Bytes) | pause | drain | removeDrained | remove | create | hold (b : Bytes) | release | skip
   | lateAppend (b : Bytes)   -- `L`: release the consumer, then an append timed into the poller's last sleep
+  | trunc (n : Nat)          -- `t<n>`: truncate the file at the path to `n` bytes, in place
   deriving Repr
 
 def parseOp (st : String) : Option Op :=
   match st.toList with
   | 'a' :: r => (Hex.dec (String.ofList r)).map .append
+  | 'q' :: r => (Hex.dec (String.ofList r)).map .append
+  | 't' :: r => (String.ofList r).toNat?.map .trunc
   | 'H' :: r => (Hex.dec (String.ofList r)).map .hold
   | 'L' :: r => (Hex.dec (String.ofList r)).map .lateAppend
   | 'p' :: _ => some .pause
@@ -174,6 +190,7 @@ def runNotify (cfg : NCfg) (prefD kf : Bool) (s0 : NSt UInt8) (startHeld : Bool)
     | .append b => { sim with st := settle sim.held (nAppend sim.st b) }
     | .remove | .removeDrained => { sim with st := settle sim.held (nRemove sim.st) }
     | .create => { sim with st := settle sim.held (nCreate sim.st) }
+    | .trunc n => { sim with st := settle sim.held (nTrunc sim.st n) }
     | .hold b =>
       if sim.held || b.isEmpty || sim.st.fs.path.isNone then { sim with st := settle sim.held (nAppend sim.st b) }
       else
@@ -194,6 +211,7 @@ def runPoll (cfg : PCfg) (s0 : PSt UInt8) (startHeld : Bool) (ops : List Op) : P
     | .append b => { sim with st := settle sim.held (pAppend sim.st b) }
     | .remove | .removeDrained => { sim with st := settle sim.held (pRemove sim.st) }
     | .create => { sim with st := settle sim.held (pCreate sim.st) }
+    | .trunc n => { sim with st := settle sim.held (pTrunc sim.st n) }
     | .hold b =>
       if sim.held || b.isEmpty || sim.st.fs.path.isNone then { sim with st := settle sim.held (pAppend sim.st b) }
       else { st := settle false (pAppend sim.st b), held := true }
